@@ -47,14 +47,15 @@ CLAIMS = {
             'Not decided: the end-to-end "never disconnected within budget" sentence; other channel structs when their units are not listed in the evidence.'),
     'C13': ('pending_acks.len() <= 64 after every add_pending_ack for any arrival order (Verus); every netcode packet kind encodes to exactly 1+n+body+16 <= 1400 bytes, '
             'payloads of every length 0..=1300, request = 1078 bytes (Kani, complete).',
-            'Not decided: renet Packet::to_bytes wire length (unit U13 when listed), RenetClient::get_packets_to_send glue.'),
+            'renet: Packet::to_bytes fails only when the buffer is shorter than the wire length and writes exactly that many bytes; a message-carrying packet that satisfies the channels\' packing bound is at most 1300 bytes, '
+            'an Ack packet with at most 64 well-formed ranges at most 1041 bytes (Verus lemmas over the wire format). Not decided: RenetClient::get_packets_to_send glue.'),
     'C16': ('Netcode prefix/sequence round trip for all u64 and all packet types, full encode->decode round trip for KeepAlive/Disconnect/Denied, body-level write->read '
             'round trips for Challenge/Response/Request (Kani, complete); ack list: denotes exactly the received set, newest 64 ranges (Verus). '
             'renet message layer (Verus, unbounded): the wire format is a pair of spec functions wire/parse with the proved lemma parse(wire(p) ++ tail) = (p, tail) for every packet '
             'the format can carry (all five kinds, any number of messages/ranges, all varint widths); the real Packet::from_bytes is proved to compute parse exactly (accepts, value, bytes consumed, '
-            'and refuses only what parse refuses), everything it returns lies in the round-trip domain, and the real Packet::to_bytes is proved to write wire(p) for the four message-carrying kinds.',
+            'and refuses only what parse refuses), everything it returns lies in the round-trip domain, and the real Packet::to_bytes is proved verbatim to write exactly wire(p) for all five kinds (including the delta-coded Ack arm over iter().rev()).',
             'Assumed: octets cursor/varint model (3 axioms: length, decode(encode v ++ t) = v, decoded value < 2^62). Bounded stand-in (not counted as proved): netcode payload round trip for lengths 1..=16. '
-            'Not decided: the Ack arm of Packet::to_bytes (iter().rev(), rule D8: the Ack round trip is proved against the documented format, not against that arm), connect tokens.'),
+            'Not decided: connect tokens (PrivateConnectToken/ConnectToken round trips).'),
     'C17': ('Usage contract of the AEAD in Packet::encode/decode: sealed exactly once with (sequence, key), AAD binds version, protocol id and prefix byte, nonce is the '
             'decoded sequence, ciphertext is everything after the sequence bytes (Kani, complete).',
             'Assumed: the AEAD itself. Not decided: nonce uniqueness across server global_sequence / per-connection sequence (NetcodeServer, out of reach).'),
